@@ -26,7 +26,7 @@ import (
 	"verif/vk"
 )
 
-const c07Rule = "all 16 combinations of ResetOnLogon/ResetOnLogout/ResetOnDisconnect/RefreshOnLogon x role x BeginString x store (memory,file), generated starting counters, then a state machine: traffic, peer logout, disconnect, reconnect with a faithful or a ResetSeqNumFlag-carrying counterparty, an application that leaves its Logon alone, adds ResetSeqNumFlag=N or (initiator) sets ResetSeqNumFlag=Y in ToAdmin, reset-time crossings, SequenceReset messages over NewSeqNo {<,=,>expected} x GapFillFlag {Y,N,absent} x MsgSeqNum {expected, above, below+PossDup}; non-trivial = history with a reconnect at non-initial counters, a reset negotiation, or a SequenceReset that changes or must not change the expected number; distinct = distinct history"
+const c07Rule = "all 16 combinations of ResetOnLogon/ResetOnLogout/ResetOnDisconnect/RefreshOnLogon x role x BeginString x store (memory, file, sqlite) x plain / optional-field session identity, generated starting counters, then a state machine: traffic, peer logout, disconnect, reconnect with a faithful or a ResetSeqNumFlag-carrying counterparty, an application that leaves its Logon alone, adds ResetSeqNumFlag=N or (initiator) sets ResetSeqNumFlag=Y in ToAdmin, reset-time crossings, restarts on the persistent store, SequenceReset messages over NewSeqNo {<,=,>expected} x GapFillFlag {Y,N,absent} x MsgSeqNum {expected, above, below+PossDup}; non-trivial = history with a reconnect at non-initial counters, a reset negotiation, or a SequenceReset that changes or must not change the expected number; distinct = distinct history"
 
 func c07() *stats.Collector {
 	c := stats.Get("C07")
@@ -273,7 +273,8 @@ func c07Property(t *rapid.T) {
 		resetSeqTime: rapid.IntRange(0, 3).Draw(t, "ResetSeqTime") == 0,
 	}
 	cfg := simCfg{begin: rapid.SampledFrom(allBegins).Draw(t, "begin"), initiator: rapid.Bool().Draw(t, "initiator"), hb: 30,
-		store: rapid.SampledFrom([]string{"memory", "file"}).Draw(t, "store"), settings: map[string]string{}}
+		store: rapid.SampledFrom([]string{"memory", "file", "sql"}).Draw(t, "store"), settings: map[string]string{}}
+	cfg.richID = rapid.Bool().Draw(t, "identity-with-optional-fields")
 	yn := func(b bool) string {
 		if b {
 			return "Y"
@@ -414,6 +415,32 @@ func c07Property(t *rapid.T) {
 				return // connected (a no-op step: rapid gives up when too many draws in a row are skipped)
 			}
 			logonCycle(t)
+		},
+		"restart": func(t *rapid.T) {
+			// the engine is discarded and recreated on its persistent store: counters and stored
+			// messages are what they were (a reset at logout / disconnect has been persisted too)
+			if cfg.store == "memory" {
+				return
+			}
+			if s.r.V.IsConnected() {
+				s.disconnect()
+			}
+			S, T := s.r.S(), s.r.T()
+			before, _ := s.r.Store().GetMessages(1, S-1)
+			s.restart()
+			mon.feat["restart"] = true
+			if s.r.S() != S || s.r.T() != T {
+				vk.Violation(t, c, "C07/counters-changed-by-restart/"+cfg.store, "before the restart S=%d T=%d, after it S=%d T=%d\n%s", S, T, s.r.S(), s.r.T(), s.history())
+			}
+			after, _ := s.r.Store().GetMessages(1, S-1)
+			if len(after) != len(before) {
+				vk.Violation(t, c, "C07/stored-messages-changed-by-restart/"+cfg.store, "%d stored messages before the restart, %d after it\n%s", len(before), len(after), s.history())
+			}
+			for i := range before {
+				if i < len(after) && !bytes.Equal(before[i], after[i]) {
+					vk.Violation(t, c, "C07/stored-messages-changed-by-restart/"+cfg.store, "stored message %d differs after the restart\n%s", i, s.history())
+				}
+			}
 		},
 		"sequenceReset": func(t *rapid.T) {
 			if s.r.V.StateName() != "inSession" {
